@@ -109,6 +109,9 @@ def time_input(name, seconds, carrier='dt64'):
         return [int(s) if s.denominator == 1 else s for s in secs]
     if carrier == 'epoch_array':
         return Vec.fresh(cells, kind='nd', dtype='f8', owner=name)
+    if carrier in ('epoch_series', 'epoch_index'):
+        # numbers of seconds since the epoch held in a pandas Series / Index
+        return Vec.fresh(cells, kind='series' if carrier == 'epoch_series' else 'index', dtype='f8', owner=name)
     if carrier == 'series':
         return Vec.fresh(cells, kind='series', dtype='M8', unit='ns', owner=name)
     if carrier == 'series_tz':
